@@ -138,7 +138,7 @@ Section Passes.
     intros HW HN Htr Hfix Hinit Hnode.
     assert (Hinits : all_inits (rw tr sg p (fun _ => g_inits) m) = all_inits m) by apply all_inits_rw_same.
     constructor.
-    - apply WF_rw; auto. rewrite Hinits. apply (wf_init_prod m HW).
+    - apply WF_rw; auto; rewrite Hinits; [apply (wf_init_prod m HW) | apply (wf_inits_nodup m HW)].
     - apply NoOpFunc_rw. exact HN.
     - apply all_formals_rw.
     - intros env r He Hc.
@@ -256,7 +256,7 @@ Section Passes.
     rewrite remove_eq.
     assert (Hinits : all_inits (rw (fun n => n) (fun v => v) (fun n => negb (has_key k n)) (fun _ => g_inits) m) = all_inits m) by apply all_inits_rw_same.
     constructor.
-    - apply WF_rw; auto using tr_ok_id. rewrite Hinits. apply (wf_init_prod m HW).
+    - apply WF_rw; auto using tr_ok_id; rewrite Hinits; [apply (wf_init_prod m HW) | apply (wf_inits_nodup m HW)].
     - apply NoOpFunc_rw. exact HN.
     - apply all_formals_rw.
     - intros env r He Hc.
@@ -274,5 +274,166 @@ Section Passes.
         assert (n0 = n). { eapply producer_unique; eauto. apply has_key_first; auto. } subst n0. exact (HL Hv).
     - reflexivity.
     - unfold rw, mk2. simpl. apply map_length.
+  Qed.
+
+  Lemma trim_step m k : WF m -> NoOpFunc m -> Pres m (update_node k trim_node m).
+  Proof.
+    intros HW HN. rewrite update_trim_eq. apply rw_pres_total; auto using tr_ok_trim.
+  Qed.
+
+  (* what DCE never touches: the main initializer table (until remove_unused_inits) and the outputs of the other graphs *)
+  Definition frame (m : model) : list (vid * tensor) * list vid :=
+    (g_inits (m_main m), flat_map g_outs (map snd (m_subs m) ++ map f_body (m_funcs m))).
+  Lemma frame_rw_id tr p m : frame (rw tr (fun v => v) p (fun _ => g_inits) m) = frame m.
+  Proof.
+    unfold frame, rw, mk2. simpl. f_equal. rewrite !map_map. rewrite !flat_map_app, !flat_map_map. simpl.
+    f_equal; apply flat_map_ext'; intros; apply map_id.
+  Qed.
+
+  Definition PresF (m m' : model) : Prop := Pres m m' /\ frame m' = frame m.
+  Lemma PresF_refl m : WF m -> NoOpFunc m -> PresF m m.
+  Proof. intros. split; [apply Pres_refl; assumption | reflexivity]. Qed.
+  Lemma PresF_trans a b c : PresF a b -> PresF b c -> PresF a c.
+  Proof. intros [P1 F1] [P2 F2]. split; [eapply Pres_trans; eauto | congruence]. Qed.
+  Lemma PresF_fold {A} (step : model -> A -> model) l :
+    (forall m a, WF m -> NoOpFunc m -> PresF m (step m a)) ->
+    forall m, WF m -> NoOpFunc m -> PresF m (fold_left step l m).
+  Proof.
+    intros Hs. induction l as [|a l IH]; intros m HW HN; simpl; [apply PresF_refl; assumption|].
+    eapply PresF_trans; [apply Hs; assumption|]. destruct (Hs m a HW HN) as [[] _]. apply IH; assumption.
+  Qed.
+
+  Lemma trim_outputs_nil u ho m1 gouts n : trim_outputs [] u ho m1 gouts n = n.
+  Proof.
+    unfold trim_outputs. destruct (negb ho); [reflexivity|]. unfold opt_flags. destruct (n_op n) as [[d nm] ov].
+    destruct (dom_onnx d); reflexivity.
+  Qed.
+
+  Lemma dce_graph_pres u ops : forall fuel r m, WF m -> NoOpFunc m -> PresF m (dce_graph [] u ops fuel r m).
+  Proof.
+    induction fuel as [|f IHf]; intros r m HW HN; simpl; [apply PresF_refl; assumption|].
+    destruct (get_gref m r) as [g0|]; [|apply PresF_refl; assumption].
+    generalize (rev (map node_key (g_nodes g0))) as keys. intros keys. revert m HW HN.
+    induction keys as [|k rest IHk]; intros m HW HN; [apply PresF_refl; assumption|].
+    destruct (get_node m k) as [n|] eqn:Eg; [|apply IHk; assumption].
+    destruct (forallb _ (n_outs n)) eqn:Edead.
+    - assert (P : Pres m (remove_node k m)) by (eapply dead_step; eauto).
+      eapply PresF_trans; [split; [exact P | rewrite remove_eq; apply frame_rw_id]|].
+      destruct P. apply IHk; assumption.
+    - set (m1 := update_node k trim_node m).
+      assert (P1 : Pres m m1) by (apply trim_step; assumption).
+      assert (F1 : frame m1 = frame m) by (unfold m1; rewrite update_trim_eq; apply frame_rw_id).
+      rewrite (update_id_eq k _ m1) by (intros; apply trim_outputs_nil).
+      rewrite trim_outputs_nil.
+      eapply PresF_trans; [split; [exact P1 | exact F1]|].
+      destruct P1 as [HW1 HN1 _ _ _ _].
+      eapply PresF_trans.
+      + apply (PresF_fold (fun m sg => dce_graph [] u ops f (GSub sg) m)); auto.
+      + destruct (PresF_fold (fun m sg => dce_graph [] u ops f (GSub sg) m) (attr_graphs (n_attrs (trim_node n)))
+                             (fun m a HWm HNm => IHf (GSub a) m HWm HNm) m1 HW1 HN1) as [[] _].
+        apply IHk; assumption.
+  Qed.
+
+  Lemma rw_graph_id g : rw_graph (fun n => n) (fun v => v) (fun _ => true) g_inits g = g.
+  Proof. unfold rw_graph. rewrite filter_true, map_subst_id, map_id. destruct g; reflexivity. Qed.
+
+  Definition keep_init (m : model) (vt : vid * tensor) : bool :=
+    has_uses m (fst vt) || memN (fst vt) (g_outs (m_main m)) || memN (fst vt) (g_ins (m_main m)).
+  Lemma remove_unused_inits_eq m :
+    remove_unused_inits m = rw (fun n => n) (fun v => v) (fun _ => true)
+                               (fun b g => if b then filter (keep_init m) (g_inits g) else g_inits g) m.
+  Proof.
+    unfold remove_unused_inits, rw, mk2. destruct m as [mm ss ff]. simpl. f_equal.
+    - unfold rw_graph, set_inits. rewrite filter_true, map_subst_id, map_id. reflexivity.
+    - rewrite <- (map_id ss) at 1. apply map_ext. intros [k g]. simpl. rewrite rw_graph_id. reflexivity.
+    - rewrite <- (map_id ff) at 1. apply map_ext. intros [i b d]. simpl. rewrite rw_graph_id. reflexivity.
+  Qed.
+
+  Lemma alookup_app {A} (l1 l2 : list (N * A)) k :
+    alookup (l1 ++ l2) k = match alookup l1 k with Some a => Some a | None => alookup l2 k end.
+  Proof. induction l1 as [|[k' a] l1 IH]; simpl; [reflexivity|]. destruct (N.eqb k' k); [reflexivity | exact IH]. Qed.
+  Lemma alookup_filter_keep {A} (q : N * A -> bool) (l : list (N * A)) k a :
+    alookup l k = Some a -> (forall a', q (k, a') = true) -> alookup (filter q l) k = Some a.
+  Proof.
+    induction l as [|[k' a'] l IH]; simpl; intros E Hq; [discriminate|].
+    destruct (N.eqb k' k) eqn:Ek.
+    - apply N.eqb_eq in Ek. subst k'. injection E as <-. rewrite Hq. simpl. rewrite N.eqb_refl. reflexivity.
+    - destruct (q (k', a')); simpl; [rewrite Ek|]; apply IH; assumption.
+  Qed.
+  Lemma alookup_filter_none {A} (q : N * A -> bool) (l : list (N * A)) k : alookup l k = None -> alookup (filter q l) k = None.
+  Proof.
+    induction l as [|[k' a'] l IH]; simpl; intros E; [reflexivity|].
+    destruct (N.eqb k' k) eqn:Ek; [discriminate|]. destruct (q (k', a')); simpl; [rewrite Ek|]; apply IH; assumption.
+  Qed.
+  Lemma alookup_None_notin {A} (l : list (N * A)) k : alookup l k = None -> ~ In k (map fst l).
+  Proof.
+    induction l as [|[k' a'] l IH]; simpl; intros E; [tauto|].
+    destruct (N.eqb k' k) eqn:Ek; [discriminate|]. apply N.eqb_neq in Ek. intros [H|H]; [congruence | exact (IH E H)].
+  Qed.
+
+  Lemma NoDup_map_fst_filter_app {A} (q : N * A -> bool) (a b : list (N * A)) :
+    NoDup (map fst (a ++ b)) -> NoDup (map fst (filter q a ++ b)).
+  Proof.
+    induction a as [|x a IH]; simpl; intros H; [exact H|]. inversion H; subst.
+    destruct (q x); simpl; [|apply IH; assumption]. constructor; [|apply IH; assumption].
+    intros Hin. apply H2. rewrite map_app, in_app_iff in *. destruct Hin as [Hin|Hin]; [left|right; exact Hin].
+    apply in_map_iff in Hin. destruct Hin as [y [E Hy]]. apply filter_In in Hy. apply in_map_iff. exists y. tauto.
+  Qed.
+
+  Lemma unused_inits_step m : WF m -> NoOpFunc m ->
+    (forall o, In o (snd (frame m)) -> ~ In o (map fst (fst (frame m)))) -> Pres m (remove_unused_inits m).
+  Proof.
+    intros HW HN Hfr. rewrite remove_unused_inits_eq.
+    set (inits := fun (b : bool) g => if b then filter (keep_init m) (g_inits g) else g_inits g).
+    set (rest := flat_map g_inits (map snd (m_subs m) ++ map f_body (m_funcs m))).
+    assert (Hall : all_inits m = g_inits (m_main m) ++ rest) by reflexivity.
+    assert (Hall' : all_inits (rw (fun n => n) (fun v => v) (fun _ => true) inits m) = filter (keep_init m) (g_inits (m_main m)) ++ rest).
+    { unfold all_inits, rw, mk2, graphs_of. simpl. f_equal. unfold rest. rewrite !map_map, !flat_map_app, !flat_map_map. reflexivity. }
+    constructor.
+    - apply WF_rw; auto using tr_ok_id.
+      + intros v Hv. apply (wf_init_prod m HW). rewrite Hall', map_app, in_app_iff in Hv.
+        rewrite Hall, map_app, in_app_iff. destruct Hv as [Hv|Hv]; [left|right; exact Hv].
+        apply in_map_iff in Hv. destruct Hv as [vt [<- Hvt]]. apply filter_In in Hvt. apply in_map. tauto.
+      + rewrite Hall'. pose proof (wf_inits_nodup m HW) as Hnd. rewrite Hall in Hnd.
+        apply NoDup_map_fst_filter_app. exact Hnd.
+    - apply NoOpFunc_rw. exact HN.
+    - apply all_formals_rw.
+    - intros env r He Hc.
+      eapply (step_computes T absent tensor_val interp interp_mono interp_identity interp_trailing_absent
+                            (fun n => n) (fun v => v) (fun _ => true) inits m
+                            (fun v => forall t, alookup (g_inits (m_main m)) v = Some t -> keep_init m (v, t) = true));
+        eauto using tr_ok_id.
+      + intros n0 w Hn0 _ Hw t Et. unfold keep_init. simpl.
+        destruct (has_uses m w) eqn:Eu; [reflexivity|]. exfalso. exact (has_uses_false m w Eu n0 Hn0 Hw).
+      + intros g Hg. apply Forall_forall. intros o Ho t Et. unfold keep_init. simpl.
+        destruct Hg as [<-|Hg].
+        * apply memN_In in Ho. rewrite Ho. rewrite orb_true_r. reflexivity.
+        * exfalso. apply (Hfr o).
+          -- unfold frame. simpl. apply in_flat_map. exists g. split; [exact Hg | exact Ho].
+          -- unfold frame. simpl. apply alookup_In in Et. apply in_map_iff. exists (o, t). auto.
+      + intros v t HL Ei. rewrite Hall'. rewrite Hall, alookup_app in Ei. rewrite alookup_app. split; [|left; reflexivity].
+        destruct (alookup (g_inits (m_main m)) v) as [t0|] eqn:E0.
+        * injection Ei as <-. rewrite (alookup_filter_keep _ _ v t0 E0); [reflexivity|].
+          intros a'. unfold keep_init. simpl. specialize (HL t0 eq_refl). unfold keep_init in HL. simpl in HL. exact HL.
+        * rewrite (alookup_filter_none _ _ v E0). exact Ei.
+      + intros v n0 i HL Ei Ep. left. repeat split; auto. rewrite Hall'. rewrite Hall, alookup_app in Ei. rewrite alookup_app.
+        destruct (alookup (g_inits (m_main m)) v) eqn:E0; [discriminate|]. rewrite (alookup_filter_none _ _ v E0). exact Ei.
+    - reflexivity.
+    - unfold rw, mk2. simpl. apply map_length.
+  Qed.
+
+  Theorem dce_pres u ops fuel m : WF m -> NoOpFunc m ->
+    (forall o, In o (snd (frame m)) -> ~ In o (map fst (fst (frame m)))) -> Pres m (dce [] u ops fuel m).
+  Proof.
+    intros HW HN Hfr. unfold dce.
+    destruct (dce_graph_pres u ops fuel GMain m HW HN) as [P1 F1].
+    set (m1 := dce_graph [] u ops fuel GMain m) in *.
+    destruct P1 as [HW1 HN1 a1 b1 c1 d1].
+    assert (P2 : Pres m1 (remove_unused_inits m1)) by (apply unused_inits_step; auto; rewrite F1; exact Hfr).
+    set (m2 := remove_unused_inits m1) in *.
+    eapply Pres_trans; [constructor; eassumption|]. eapply Pres_trans; [exact P2|].
+    destruct P2 as [HW2 HN2 _ _ _ _].
+    assert (H := PresF_fold (fun m r => dce_graph [] u ops fuel r m) (func_refs m2) (fun m a HWm HNm => dce_graph_pres u ops fuel a m HWm HNm) m2 HW2 HN2).
+    exact (proj1 H).
   Qed.
 End Passes.
